@@ -31,6 +31,8 @@ func relOf(s string) *int {
 		v = 0
 	case "now+1":
 		v = 1
+	case "now+2": // the second of the second validation of a sequence (T+2): the boundary itself
+		v = 2
 	case "far":
 		v = farFuture
 	case "huge": // centuries ahead
@@ -150,7 +152,7 @@ func genSeq(cfg Config, emit Emit, mode string, nq, nt, attPct int) {
 	if cfg.Thorough() {
 		n = nt
 	}
-	shapes := [][2]string{{"now+1", "unset"}, {"now+1", "far-past"}, {"far", "now+1"}, {"none", "now+1"}}
+	shapes := [][2]string{{"now+1", "unset"}, {"now+1", "far-past"}, {"far", "now+1"}, {"none", "now+1"}, {"now+2", "unset"}, {"far", "now+2"}}
 	o := genOpts{minDepth: 1, maxDepth: 4, sessions: true, sessionPct: 60, caveatPct: 1}
 	for i := 0; i < n; i++ {
 		var class string
@@ -230,13 +232,16 @@ func execAccess3Seq(args []string) (res Result) {
 			return Result{Impl: "bad-world:" + err.Error()}
 		}
 		w.Now = T
+		exact := false // a window boundary at T+2: the second validation has to happen in that very second
 		for i := range w.Tokens {
 			t := &w.Tokens[i]
 			if t.ExpRel != nil {
+				exact = exact || *t.ExpRel == 2
 				e := T + *t.ExpRel
 				t.Exp, t.ExpRel = &e, nil
 			}
 			if t.NbfRel != nil {
+				exact = exact || *t.NbfRel == 2
 				t.Nbf, t.NbfRel = T+*t.NbfRel, nil
 			}
 		}
@@ -258,7 +263,7 @@ func execAccess3Seq(args []string) (res Result) {
 		log.Checker, log.Derives, log.Resolved, log.unavailable = nil, nil, nil, 0
 		log.mu.Unlock()
 		r := accessOn(cw, &w, args[0], log)
-		if int(time.Now().Unix()) != T2 {
+		if int(time.Now().Unix()) != T2 || (exact && T2 != T+2 && attempt < 2) {
 			continue
 		}
 		r.Extra = map[string]any{"abstract_args": abstract, "first_validated_at": T, "first": first.Impl, "validated_at": T2}
@@ -283,13 +288,16 @@ func execServe3Seq(args []string) (res Result) {
 			return Result{Impl: "bad-world:" + err.Error()}
 		}
 		w.Now = T
+		exact := false
 		for i := range w.Tokens {
 			t := &w.Tokens[i]
 			if t.ExpRel != nil {
+				exact = exact || *t.ExpRel == 2
 				e := T + *t.ExpRel
 				t.Exp, t.ExpRel = &e, nil
 			}
 			if t.NbfRel != nil {
+				exact = exact || *t.NbfRel == 2
 				t.Nbf, t.NbfRel = T+*t.NbfRel, nil
 			}
 		}
@@ -313,7 +321,7 @@ func execServe3Seq(args []string) (res Result) {
 		calls = nil
 		mu.Unlock()
 		statuses, problems := cw.serveBatch(srv, &calls)
-		if int(time.Now().Unix()) != T2 {
+		if int(time.Now().Unix()) != T2 || (exact && T2 != T+2 && attempt < 2) {
 			continue
 		}
 		w.Now = T2
